@@ -400,20 +400,43 @@ static int base_of(std::ios_base::fmtflags f)
    return b == std::ios_base::hex ? 16 : b == std::ios_base::oct ? 8 : 10;
 }
 
+// A string buffer that gives up after 16 MiB: a print that does not come to an end is a result (`exc:unknown`), not a hang of the probe.
+struct Runaway_output { };
+struct Capped_buf : std::stringbuf {
+   std::size_t written = 0;
+   static constexpr std::size_t cap = std::size_t{16} << 20;
+   std::streamsize xsputn(const char* s, std::streamsize n) override
+   {
+      if ((written += static_cast<std::size_t>(n)) > cap) throw Runaway_output{ };
+      return std::stringbuf::xsputn(s, n);
+   }
+   int_type overflow(int_type c) override
+   {
+      if (++written > cap) throw Runaway_output{ };
+      return std::stringbuf::overflow(c);
+   }
+};
+struct Capped_stream : std::ostream {
+   Capped_buf buf;
+   Capped_stream() : std::ostream(nullptr) { rdbuf(&buf); exceptions(std::ios_base::badbit); }
+   std::string str() const { return buf.str(); }
+};
+
 template<class F>
-static PrintResult run_print(const Lexicon& lex, bool loc, int base, int fill, int width, F body)
+static PrintResult run_print(const Lexicon& lex, bool loc, int base, int fill, int width, F body, int start_indent = 0)
 {
    // Every print gets a FRESH printer on a FRESH stream, both at addresses different from those of the previous prints (they stay
    // alive in a ring of 256): text must not depend on which printer object or which stream printed earlier.
-   struct Session { std::ostringstream ss; std::unique_ptr<Printer> pp; };
+   struct Session { Capped_stream ss; std::unique_ptr<Printer> pp; };
    static std::deque<std::unique_ptr<Session>> ring;
    ring.push_back(std::make_unique<Session>());
    if (ring.size() > 256) ring.pop_front();
-   std::ostringstream& ss = ring.back()->ss;
+   Capped_stream& ss = ring.back()->ss;
    setup_stream(ss, base, fill, width);
    ring.back()->pp = std::make_unique<Printer>(lex, ss);
    Printer& pp = *ring.back()->pp;
    pp.print_locations = loc;
+   if (start_indent != 0) pp.indent(start_indent);          // the client's own indentation when the print starts (may be negative)
    auto f0 = ss.flags(); auto fill0 = ss.fill(); auto prec0 = ss.precision();
    std::string status = "ok";
    try { body(pp); }
@@ -1165,8 +1188,24 @@ int main(int argc, char** argv)
             PrintResult r;
             if (ws[0] == "print") {
                const std::string route = ws.at(3);
-               if (not route_applies(route, *o.expr)) { std::cout << "n/a\n"; continue; }
-               r = run_print(w.lex, loc, base, fill, width, [&](Printer& pp) { print_route(pp, route, *o.expr); });
+               const int ind = opt_int(ws, "ind", 0);
+               if (route == "unit") {
+                  // the whole translation unit through its own inserter
+                  r = run_print(w.lex, loc, base, fill, width, [&](Printer& pp) { pp << w.unit; }, ind);
+               }
+               else if (route.rfind("again:", 0) == 0) {
+                  // the SAME printer prints the node, and -- whether that came to an end or was refused midway -- prints it once more
+                  const std::string inner = route.substr(6);
+                  if (not route_applies(inner, *o.expr)) { std::cout << "n/a\n"; continue; }
+                  r = run_print(w.lex, loc, base, fill, width, [&](Printer& pp) {
+                     try { print_route(pp, inner, *o.expr); } catch (const std::logic_error&) { }
+                     print_route(pp, inner, *o.expr);
+                  }, ind);
+               }
+               else {
+                  if (not route_applies(route, *o.expr)) { std::cout << "n/a\n"; continue; }
+                  r = run_print(w.lex, loc, base, fill, width, [&](Printer& pp) { print_route(pp, route, *o.expr); }, ind);
+               }
             }
             else {
                auto n = std::stoul(ws.at(3));
